@@ -44,6 +44,24 @@ func VerifC32Injective() {
 	rt.Reach("end")
 }
 
+// VerifC32Long: the same for ids of realistic length (Ed25519 ids are 38 bytes; two of them exceed any
+// 64-byte block or buffer): pairs that differ in any byte, including the last ones of the higher id,
+// give different session ids.
+func VerifC32Long() {
+	n := 38
+	if rt.Tier() > 0 && rt.Choose("len", 2) == 1 {
+		n = 70
+	}
+	a, b := rt.String("a", n, n), rt.String("b", n, n)
+	c, d := rt.String("c", n, n), rt.String("d", n, n)
+	rt.Assume(rt.And(rt.And(c32WellFormed(a), c32WellFormed(b)), rt.And(c32WellFormed(c), c32WellFormed(d))))
+	s1 := ComputeSessionID(peer.ID(a), peer.ID(b))
+	s2 := ComputeSessionID(peer.ID(c), peer.ID(d))
+	samePair := rt.Or(rt.And(a == c, b == d), rt.And(a == d, b == c))
+	rt.Assert("full-length ids: equal session ids iff same unordered pair", rt.Iff(rt.BytesEq(s1, s2), samePair))
+	rt.Reach("end")
+}
+
 func c32SortedDistinct(l [][]byte) bool {
 	ok := true
 	for i := 0; i+1 < len(l); i++ {
